@@ -18,7 +18,21 @@ DevLogicalAsNumber(o) ==
 DevHolds(d, o) == CASE d = "DevLogicalAsNumber" -> DevLogicalAsNumber(o)
                     [] OTHER -> FALSE
 
-Verdict(o) == IF Conform(o) THEN <<"ok">>
+(* the consistency laws on the recorded answers themselves (no oracle): kind "laws" *)
+T(v) == v.t = "bool" /\ v.b
+IsB(v) == v.t = "bool"
+LawClauses(o) ==
+  LET r == o.r IN
+  IF ~(IsB(r.lt) /\ IsB(r.eq) /\ IsB(r.gt) /\ IsB(r.le) /\ IsB(r.ge) /\ IsB(r.ne) /\ IsB(r.rlt) /\ IsB(r.rgt) /\ IsB(r.req))
+  THEN <<"not_a_logical">>
+  ELSE (IF (T(r.lt) /\ ~T(r.eq) /\ ~T(r.gt)) \/ (~T(r.lt) /\ T(r.eq) /\ ~T(r.gt)) \/ (~T(r.lt) /\ ~T(r.eq) /\ T(r.gt))
+        THEN <<>> ELSE <<"not_exactly_one_of_lt_eq_gt">>)
+       \o (IF T(r.le) = (T(r.lt) \/ T(r.eq)) /\ T(r.ge) = (T(r.gt) \/ T(r.eq)) /\ T(r.ne) = ~T(r.eq) THEN <<>> ELSE <<"derived_operators">>)
+       \o (IF T(r.lt) = T(r.rgt) /\ T(r.gt) = T(r.rlt) /\ T(r.eq) = T(r.req) THEN <<>> ELSE <<"converse">>)
+
+Verdict(o) == IF "kind" \in DOMAIN o /\ o.kind = "laws"
+              THEN (IF LawClauses(o) = <<>> THEN <<"ok">> ELSE <<"bad">> \o LawClauses(o))
+              ELSE IF Conform(o) THEN <<"ok">>
               ELSE LET ds == {d \in OpenDevs : DevHolds(d, o)}
                    IN IF ds # {} THEN <<"dev", CHOOSE d \in ds : TRUE>> ELSE <<"bad", "CmpExpect">>
 
